@@ -131,7 +131,7 @@ def teardown(ctx):
 def plan(tier):
     nk, _ = grid_sizes(tier)
     # table kinds come in at most 51 cases each, so the round-robin over kinds finishes every table within the first 51 rounds
-    return [('algebra', len(ALGEBRA)), ('grid_tag', len(TAGS)), ('eps3', 5), ('eps4', 25), ('eps_out', len(EPS_OUT)),
+    return [('algebra', len(ALGEBRA)), ('grid_tag', len(TAGS)), ('grid_held', 3), ('eps3', 5), ('eps4', 25), ('eps_out', len(EPS_OUT)),
             ('kn', nk), ('special', len(special_cases(tier)))]
 
 
@@ -201,6 +201,24 @@ def run_algebra(ctx, row):
     if nontrivial:
         ctx.nontrivial.add(digest('algebra', row))
     ctx.sample({'relation': list(row)})
+
+
+def run_tags_held(ctx, idx):
+    """History: all structures are requested first and kept, then compared - a result must stay what it
+    was when later structures are requested (no shared work buffers), in several request orders
+    (added after seeded change seed3-C20)."""
+    named, stacked, g5, ident = lib_matrices()
+    tags = list(tables.GRID_TAGS)
+    order = tags if idx == 0 else (tags[::-1] if idx == 1 else [tags[(7 * k + 3) % len(tags)] for k in range(len(tags))])
+    held = {t: PE.dirac.Grid_gamma(t) for t in order}
+    again = {t: PE.dirac.Grid_gamma(t) for t in order[::-1]}
+    for t in tags:
+        exp = tables.grid_expected(t, named, g5)
+        ctx.count('grid_tags_held')
+        ctx.require(tables.same(tables.to_lists(held[t]), exp), 'Grid_gamma:%s:result-changed-by-later-requests' % t,
+                    lambda t=t: {'got': repr(tables.to_lists(held[t])), 'expected': repr(tables.grid_expected(t, named, g5))})
+        ctx.require(tables.same(tables.to_lists(again[t]), exp), 'Grid_gamma:%s:wrong-matrix-on-repeated-request' % t, None)
+    ctx.nontrivial.add(digest('held', idx))
 
 
 def run_tag(ctx, row):
@@ -442,6 +460,8 @@ def run_case(ctx, kind, idx, rng):
         run_algebra(ctx, ALGEBRA[idx])
     elif kind == 'grid_tag':
         run_tag(ctx, TAGS[idx])
+    elif kind == 'grid_held':
+        run_tags_held(ctx, idx)
     elif kind == 'eps3':
         for t in EPS3[25 * idx:25 * (idx + 1)]:          # all tuples with first index idx
             run_eps(ctx, t, 'eps3_tuples')
